@@ -26,10 +26,7 @@ struct Ctx {
     vh::PropLog* plog = nullptr;
     int maxLen = 4;
     std::map<std::string, long> pstats;
-    // vh::Rng(n+1) is vh::Rng(n) shifted by one draw; generators with data-dependent draw counts
-    // re-synchronise, so the seed is hashed first to put the streams far apart.
-    static uint64_t mix(uint64_t z) { z += 0x9E3779B97F4A7C15ull; z = (z ^ (z >> 30)) * 0xBF58476D1CE4E5B9ull; z = (z ^ (z >> 27)) * 0x94D049BB133111EBull; return z ^ (z >> 31); }
-    explicit Ctx(uint64_t seed) : rng(mix(seed)) {}
+    explicit Ctx(uint64_t seed) : rng(seed) {}
 };
 
 bool hasUnordered(const std::string& ty) { return ty.find('H') != std::string::npos || ty.find('N') != std::string::npos; }
